@@ -68,6 +68,15 @@ CHECKS = {
    design_ref='DESIGN.md par.5 C13',
    note='compression is a property of the name in the model (codecs are C code); two '
         'sub-Manifests; sizes are symbolic values reported by the text layer'),
+ 'C06': dict(
+   text='An OSError is injected at a symbolic call position with a symbolic errno, (K) into '
+        'verify_path/update_entry_for_path over the real get_file_metadata for every object '
+        'kind, and (M) among all filesystem calls of a whole-tree verification or update scan on '
+        'the model: the result is that error or a mismatch, never success and never "absent"; a '
+        'failing update has logged no write.',
+   design_ref='DESIGN.md par.5 C06',
+   note='one fault per run; open(2) contract for ENXIO/EOPNOTSUPP; os.walk reports scandir '
+        'errors through onerror; save phase and decompressors outside the claim'),
 }
 
 NOT_APPLICABLE = {
